@@ -58,6 +58,7 @@ theorem t3Response_frame (idm : Bytes) (code : Nat) (body : Bytes) (hidm : idm.l
     have hl : (rspFrame [i0, i1, i2, i3, i4, i5, i6, i7] code body).length = 12 + body.length := by
       simp [rspFrame]; omega
     unfold t3Response
+    rw [if_neg (by omega)]
     rw [show (0 : Int) = ((0 : Nat) : Int) from rfl, idx_nat _ 0 (by omega)]
     rw [show (1 : Int) = ((1 : Nat) : Int) from rfl, idx_nat _ 1 (by omega)]
     rw [show (10 : Int) = ((10 : Nat) : Int) from rfl, idx_nat _ 10 (by omega)]
